@@ -237,6 +237,14 @@ theorem repeated_token_does_not_stop (r0 : Req ρ) (p q : Page ι) (rest : List 
   · rw [items_all_once_in_order, hT]; simp
   · rw [call_count_eq_page_count, hT]; simp; omega
 
+/-- **`page_size` is just another request field** (it lives in `Req.other`): what the pager yields does not
+depend on the caller's request at all — in particular a non-final page SHORTER than the requested page size
+(AIP-158 allows short and empty pages with a token) does not end the listing — and by `requests_exact` /
+`requests_thread_tokens` every request carries it unchanged. -/
+theorem page_size_does_not_stop (r0 r0' : Req ρ) (p0 : Page ι) (srv : List (Page ι)) :
+    (run r0 (p0 :: srv)).1 = (run r0' (p0 :: srv)).1 ∧ ∀ r ∈ (run r0 (p0 :: srv)).2, r.other = r0.other :=
+  ⟨by rw [items_all_once_in_order, items_all_once_in_order], requests_thread_tokens r0 p0 srv⟩
+
 /-- **Attributes of the pager are those of the most recent page**: after iteration, `_response`
 is the last page yielded. -/
 theorem attrs_are_last_page (st : PState ι ρ) (srv : List (Page ι)) :
@@ -526,5 +534,11 @@ example : (run (ρ := Unit) ⟨"cur-2".toList, ()⟩
     ([1, 2, 3], [⟨"cur-2".toList, ()⟩, ⟨"cur-2".toList, ()⟩, ⟨"cur-2".toList, ()⟩]) := by decide
 example : (⟨[1, 2], "cur-2".toList⟩ : Page Nat).token ≠ [] ∧
     (⟨[], "cur-2".toList⟩ : Page Nat).token = (⟨[1, 2], "cur-2".toList⟩ : Page Nat).token := by decide
+
+/-- `page_size_does_not_stop`: the history of seeded change seed11_C07 — page sizes 2, 3, 1, 2 listed with `page_size = 3`
+(`other := 3`): the short first and third pages do not stop the pager, every request carries page_size 3 -/
+example : (run (ρ := Nat) ⟨[], 3⟩
+    [⟨[1, 2], ['a']⟩, ⟨[3, 4, 5], ['b']⟩, ⟨[6], ['c']⟩, ⟨[7, 8], []⟩]) =
+    ([1, 2, 3, 4, 5, 6, 7, 8], [⟨[], 3⟩, ⟨['a'], 3⟩, ⟨['b'], 3⟩, ⟨['c'], 3⟩]) := by decide
 
 end GapicModel.Props.C07
